@@ -387,3 +387,35 @@ Theorem synth_ttl_loop_is_translated :
   /\ synth_ttl cur ns addrs cut = bound_ttl cut (synth_ttl cur ns addrs None).
 Proof. exact (synth_ttl_by_gen_loop cur). Qed.
 Print Assumptions synth_ttl_loop_is_translated.
+
+(* forward, then reverse: every AAAA the handler synthesises can be asked back —
+   the PTR route decodes its ip6.arpa name, whatever the number and nesting of
+   the configured prefixes, to an IPv4 address whose embedding under a
+   configured prefix (not excluded there) is that AAAA *)
+Theorem synthesised_address_reverses :
+  forall cf q m mark work ar cut r o t e,
+  Forall (fun p => legal_prefix (cp_net p) /\ bytes_ok (n_ip (cp_net p))) (c_prefixes (compile cf)) ->
+  (forall o' ta ip, In (RA o' ta ip) (m_answer ar) -> bytes_ok ip) ->
+  x_path (serve cur cf q (Some (m, mark)) work (QResp ar) cut) = PSynth ->
+  x_reply (serve cur cf q (Some (m, mark)) work (QResp ar) cut) = Some r ->
+  In (RAAAA o t e) (r_answer r) ->
+  exists w, ptr_target cur (compile cf) (lower (arpa_name e)) = Some w
+    /\ exists p, In p (c_prefixes (compile cf)) /\ e = embed (cp_net p) w /\ length w = 4%nat
+                 /\ should_exclude_a (compile cf) w p = false.
+Proof. exact synthesised_address_reverses_lem. Qed.
+Print Assumptions synthesised_address_reverses.
+
+(* "only for non-excluded zones", whatever the spelling: an exclude_zones entry
+   z counts in any letter case, with blanks around it, with or without the
+   final dot ([fq (trim_space (lower z))] is what compileConfig stores), and a
+   query name in any letter case that is the zone or lies below it is neither
+   synthesised for nor looked up *)
+Theorem no_synthesis_in_excluded_zone :
+  forall cf q down work al cut z,
+  In z (cf_zones cf) -> trim_space (lower z) <> [] ->
+  lower (q_name q) = fq (trim_space (lower z))
+  \/ has_suffix (lower (q_name q)) (46 :: fq (trim_space (lower z))) = true ->
+  x_path (serve cur cf q down work al cut) <> PSynth
+  /\ (q_type q = type_aaaa -> x_aq (serve cur cf q down work al cut) = false).
+Proof. exact excluded_zone_no_synthesis. Qed.
+Print Assumptions no_synthesis_in_excluded_zone.
